@@ -246,9 +246,9 @@ static void mode_subsets(vh::Trace& tr, int stage, vh::Rng& rng) {
   std::vector<int> viewsList;
   if (stage >= 1) for (int v = 1; v <= 96; ++v) viewsList.push_back(v);
   else {
-    for (int v = 1; v <= 32; ++v) viewsList.push_back(v);
-    for (int v : { 36, 45, 48, 64, 90, 96 }) viewsList.push_back(v);
-    viewsList.push_back(rng.range(33, 95));
+    for (int v = 1; v <= 24; ++v) viewsList.push_back(v);
+    for (int v : { 32, 45, 64, 96 }) viewsList.push_back(v);
+    viewsList.push_back(rng.range(25, 95));
   }
   const std::vector<Variant> sv = switch_variants(), ev = extra_variants();
   for (int views : viewsList) {
